@@ -14,9 +14,9 @@ CHECKS = {
     "C02": dict(category="proof", technique="Lean 4 theorems: relational correct-rounding spec (all five modes) proved for the model of libmpf arithmetic + bit-exact correspondence",
                 text="Theorems (unbounded mantissas, exponents, precisions; five modes; exact mode): _normalize/_normalize1, from_man_exp, from_int, pos/neg/abs, add/sub "
                      "(every branch incl. the far-exponent perturbation shortcut, via a proved sticky-bit principle), mul (fast bit-count update), mul_int, div, rdiv_int, "
-                     "from_rational return THE correctly rounded value (uniqueness proved), and x/0 raises. The model equals the code on a seeded bit-exact correspondence run; "
+                     "from_rational and sqrt (over the reals, via the integer square root and the sticky principle) return THE correctly rounded value (uniqueness proved), x/0 and sqrt of a negative raise. The model equals the code on a seeded bit-exact correspondence run; "
                      "the implementation output is additionally decided against an exact rational oracle.",
-                note=TB + "sqrt and fsum are tied by correspondence and decided by the exact oracle in this round; their theorems are in progress. API-level glue (operators, keyword parsing) is sampled."),
+                note=TB + "sqrt is proved over the reals (Props/C02sqrt.lean: THE rounding of Real.sqrt, all five modes); fsum is tied by correspondence and decided by the exact oracle (no theorem). API-level glue (operators, keyword parsing) is sampled."),
     "C03": dict(category="proof", technique="Lean 4 theorems about the model of mpf_pow_int (directed binary exponentiation, reciprocal mode swap): side, faithful rounding, exactness, small powers correctly rounded + bit-exact correspondence",
                 text="Theorem C03_pow_int: for every finite canonical base, every integer exponent (any sign and size), every precision >= 1 and every mode the result of mpf_pow_int is canonical with at most prec bits, "
                      "is never on the wrong side of the exact power in the four directed modes, is a faithful rounding (one of the two neighbours of the exact power, i.e. error below one unit in the last place) in nearest mode, "
